@@ -43,6 +43,57 @@ def pushed_consts(f, blocks):
     return out
 
 
+def writer_by_variant(p, f, adt, status_adt=None):
+    """what an encoder does for each variant of the message it encodes, however the work is split (`match self` arms, a
+    status() method plus a payload writer, merged arms): the function is walked once per variant with `*self` known to be that
+    variant (axvlib.absint); returns {variant: (feasible blocks, pushed [(kind, value)])} with the pushes common to all
+    variants (the protocol version) removed, or None when the walk exceeds its budget"""
+    from axvlib import absint
+    out = {}
+    sdiscr = {str(v["discr"]): v["name"] for v in p.enum_variants(status_adt)} if status_adt else {}
+    for v in [x["name"] for x in p.enum_variants(adt)]:
+        def hook(fn_, place, v=v):
+            # any reference to the message being encoded (the encoder and the helpers inlined into it see one message)
+            if len(place) >= 2 and all(pe == "*" for pe in place[1:]) and fn_.locals[place[0]].lstrip("&").startswith(adt):
+                ty = core.place_type(p, fn_, place)
+                if ty is not None and core.strip_ref(ty).split("<")[0] == adt:
+                    return ("agg", adt, v, ())
+            return None
+        ps = absint.PathSearch(p, f, place_hook=hook)
+        ev = set()
+
+        def on_state(b_, env, ps=ps, ev=ev):
+            c = f.call_at(b_)
+            if c is None or not (c.callee.endswith("::push") and "Vec" in c.callee) or len(c.args) < 2:
+                return
+            k = op_const(c.args[1])
+            kv = core.const_value(p, k) if k else None
+            if kv is not None:
+                ev.add((b_, "byte", kv))
+                return
+            m = re.match(r"tcp::StatusCode::(\w+)::\{constant#0\}", str((k or {}).get("cdef", "")))
+            if m:
+                ev.add((b_, "status", m.group(1)))
+                return
+            val = ps.operand(env, c.args[1])
+            if val is not None and val[0] == "k":
+                if str(val[1]) in sdiscr:
+                    ev.add((b_, "status", sdiscr[str(val[1])]))
+                else:
+                    ev.add((b_, "byte", val[1]))
+        try:
+            F, _ = ps.explore(0, on_state=on_state)
+        except absint.TooManyStates:
+            return None
+        # constants materialised before the push (`let s = StatusCode::X as u8; buf.push(s)`): the older extraction, on the
+        # blocks this variant can reach
+        out[v] = (F, ev)
+    if out:
+        common = set.intersection(*[e for _, e in out.values()]) if len(out) > 1 else set()
+        out = {v: (F, sorted((k_, x) for b_, k_, x in e - common)) for v, (F, e) in out.items()}
+    return out
+
+
 def built_variant(f, blocks, adt):
     vs = set()
     for bi, s in core.region_aggregates(f, blocks, adt):
@@ -73,7 +124,10 @@ def check(cx):
     if ft and ff:
         sw = [x for x in enum_switches(p, ft) if x[1] == REQ]
         w = {}
-        if sw:
+        wv = writer_by_variant(p, ft, REQ)
+        if wv:
+            w = {v: [x for k_, x in ev if k_ == "byte"] for v, (F_, ev) in wv.items()}
+        elif sw:
             for v, tgt in sw[0][2].items():
                 cs = [x[1] for x in pushed_consts(ft, dominated(ft, tgt)) if x[0] == "byte"]
                 w[v] = cs
@@ -106,7 +160,15 @@ def check(cx):
         discr = {v["name"]: v["discr"] for v in p.enum_variants(SC)}
         w = {}
         sw = [x for x in enum_switches(p, gt) if x[1] == RESP]
-        if sw:
+        wv = writer_by_variant(p, gt, RESP, SC)
+        if wv:
+            w = {v: [x for k_, x in ev if k_ == "status"] for v, (F_, ev) in wv.items()}
+            if sw:
+                # constants materialised in a local before the push: the older extraction on the variant's own arm
+                for v, tgt in sw[0][2].items():
+                    if not w.get(v):
+                        w[v] = [x[1] for x in pushed_consts(gt, dominated(gt, tgt)) if x[0] == "status"]
+        elif sw:
             for v, tgt in sw[0][2].items():
                 w[v] = [x[1] for x in pushed_consts(gt, dominated(gt, tgt)) if x[0] == "status"]
         byte2sc = {}
@@ -426,13 +488,20 @@ def check(cx):
         if sw and isw:
             bi, t = max(isw, key=lambda x: len(x[1]["targets"]))
             rd_t = {val: tgt for val, tgt in t["targets"]}
+            wv = writer_by_variant(p, ft, REQ)
             for v, tgt in sw[0][2].items():
-                ws = sig.signature(ft, tgt, dominated(ft, tgt), "w", SF)
-                ops = [x[1] for x in pushed_consts(ft, dominated(ft, tgt)) if x[0] == "byte"]
+                if wv and v in wv:
+                    # the items written on the blocks this variant can reach, whole function (version and opcode bytes first)
+                    ws = sig.signature(ft, 0, wv[v][0], "w", SF, p)
+                    ws = ws[2:].strip() if ws.startswith("u8") else ws
+                    ops = [x for k_, x in wv[v][1] if k_ == "byte"]
+                else:
+                    ws = sig.signature(ft, tgt, dominated(ft, tgt), "w", SF, p)
+                    ops = [x[1] for x in pushed_consts(ft, dominated(ft, tgt)) if x[0] == "byte"]
                 if len(ops) != 1 or ops[0] not in rd_t:
                     cx.bad(r7, "Request::" + v, ft.where(), "no unique opcode/decoder arm")
                     continue
-                rs = sig.signature(ff, rd_t[ops[0]], dominated(ff, rd_t[ops[0]]), "r", SF)
+                rs = sig.signature(ff, rd_t[ops[0]], dominated(ff, rd_t[ops[0]]), "r", SF, p)
                 body = ws[2:].strip() if ws.startswith("u8") else ws
                 cx.verdict(body == rs, r7, "Request::" + v, ft.where(), "both sides: <%s>" % body,
                            "Request::%s is written as <%s> but read as <%s>" % (v, body, rs))
@@ -441,14 +510,20 @@ def check(cx):
         sw = [x for x in enum_switches(p, gt) if x[1] == RESP]
         sw2 = [x for x in enum_switches(p, gf) if x[1] == SC]
         if sw and sw2:
+            wv = writer_by_variant(p, gt, RESP, SC)
             for v, tgt in sw[0][2].items():
-                ws = sig.signature(gt, tgt, dominated(gt, tgt), "w", SF)
-                scs = [x[1] for x in pushed_consts(gt, dominated(gt, tgt)) if x[0] == "status"]
+                if wv and v in wv and [x for k_, x in wv[v][1] if k_ == "status"]:
+                    ws = sig.signature(gt, 0, wv[v][0], "w", SF, p)
+                    ws = ws[2:].strip() if ws.startswith("u8") else ws
+                    scs = [x for k_, x in wv[v][1] if k_ == "status"]
+                else:
+                    ws = sig.signature(gt, tgt, dominated(gt, tgt), "w", SF, p)
+                    scs = [x[1] for x in pushed_consts(gt, dominated(gt, tgt)) if x[0] == "status"]
                 if len(set(scs)) != 1 or scs[0] not in sw2[0][2]:
                     cx.bad(r7, "Response::" + v, gt.where(), "no unique status/decoder arm")
                     continue
                 rt = sw2[0][2][scs[0]]
-                rs = sig.signature(gf, rt, dominated(gf, rt), "r", SF)
+                rs = sig.signature(gf, rt, dominated(gf, rt), "r", SF, p)
                 body = ws[2:].strip() if ws.startswith("u8") else ws
                 cx.verdict(body == rs, r7, "Response::" + v, gt.where(), "both sides: <%s>" % body,
                            "Response::%s is written as <%s> but read as <%s>" % (v, body, rs))
